@@ -64,16 +64,23 @@ class Call(object):
         self.partial = partial      # written as functools.partial(callee, ...)
         self.nested = False         # sits in a nested def / lambda
         self.unresolvable = False   # callee reached through a subscripted registry
+        self.inline = False         # an argument expression of this very call mutates **kwargs
 
     def expr(self, callee_expr, va_name, vk_name, chain=None):
         args = [str(100 + i) for i in range(self.n)]
+        if self.inline and args:
+            # evaluated before **kwargs is unpacked: the callee no longer gets the pristine mapping
+            args[0] = "%s.pop('zz_', 100)" % vk_name
         if chain == 'chain_pos':
             args.insert(0, self.callee)
         if self.va:
             args.append('*' + va_name)
         if self.own_va:
             args.append('*OWN_ARGS')
-        args += ['%s=%d' % (name_of(k), 200 + i) for i, k in enumerate(self.names)]
+        kwvals = ['%d' % (200 + i) for i in range(len(self.names))]
+        if self.inline and not self.n and kwvals:
+            kwvals[0] = "%s.setdefault('zz_', 200) and %s.pop('zz_')" % (vk_name, vk_name)
+        args += ['%s=%s' % (name_of(k), v) for k, v in zip(self.names, kwvals)]
         if chain == 'chain_kw':
             args.append('fparam=' + self.callee)
         if self.vk:
@@ -97,14 +104,16 @@ class Call(object):
     def describe(self):
         return {'callee': self.callee, 'n': self.n, 'names': [name_of(k) for k in self.names],
                 'va': self.va, 'vk': self.vk, 'own_va': self.own_va, 'own_vk': self.own_vk,
-                'partial': self.partial, 'nested': self.nested, 'unresolvable': self.unresolvable}
+                'partial': self.partial, 'nested': self.nested, 'unresolvable': self.unresolvable,
+                'inline': self.inline}
 
 
 CONTEXTS = ['return', 'assign', 'if', 'try', 'with', 'comprehension', 'nested_def',
             'lambda', 'decoy_before', 'decoy_wrap', 'ifelse2', 'nested_decoy', 'lambda_decoy']
-ROUTES = ['global', 'closure', 'attribute', 'method', 'parameter', 'partial_route', 'chain_kw', 'chain_pos']
+ROUTES = ['global', 'closure', 'attribute', 'method', 'parameter', 'partial_route', 'chain_kw', 'chain_pos',
+          'modifiers']
 TAINTS = ['rebind', 'augassign', 'mutate_method', 'mutate_item', 'delete', 'pass_on',
-          'nonlocal', 'read']
+          'nonlocal', 'read', 'inline']
 
 
 class Prog(object):
@@ -171,6 +180,8 @@ class Prog(object):
             return ['decoy(%s)' % name]
         if kind == 'read':
             return ['loc_ = %s' % name]
+        if kind == 'inline':
+            return []        # the taint sits inside the forwarding call's own argument list
         if kind == 'nonlocal':
             return ['def rebinder_():', '    nonlocal %s' % name,
                     '    %s = %s' % (name, '()' if star == 'args' else '{}'), 'decoy(rebinder_)']
@@ -299,6 +310,10 @@ class Prog(object):
                     lines.append('ns.sub.%s = %s' % (key, key))
             if self.route == 'closure':
                 keys = list(self.callees)
+                for k in keys:
+                    # a module global of the same name as the closure variable, bound to
+                    # something else: the closure cell is what Python calls
+                    lines += ['def c_%s(q1, q2=1, *, q3):' % k, '    return None']
                 lines.append('def make_(%s):' % ', '.join('c_' + k for k in keys))
                 lines.append('    def wrapper(%s):' % outer_src)
                 lines += ['        ' + b for b in body]
@@ -309,6 +324,14 @@ class Prog(object):
                 lines.append('def wrapper_(%s):' % sig)
                 lines += ['    ' + b for b in body]
                 lines.append('wrapper = functools.partial(wrapper_, %s)' % list(self.callees)[0])
+            elif self.route == 'modifiers':
+                # two stacked modifiers: the analysis goes through the autoforwards hint
+                named = [name_of(q[0]) for q in self.outer if q[1] == 'PK']
+                lines.append('from sigtools import modifiers')
+                lines.append("@modifiers.kwoargs('%s')" % named[-1])
+                lines.append("@modifiers.posoargs('%s')" % named[0])
+                lines.append('def wrapper(%s):' % outer_src)
+                lines += ['    ' + b for b in body]
             else:
                 lines.append('def wrapper(%s):' % outer_src)
                 lines += ['    ' + b for b in body]
@@ -360,6 +383,11 @@ def gen_programs(rng, count, tainted=False, contexts=None, routes=None, valid_on
         p.route = rng.choice(routes)
         if p.route in ('method', 'parameter') and any(k == 'PO' for (_, k, _, _, _) in p.outer):
             continue
+        if p.route == 'modifiers':
+            named = [q for q in p.outer if q[1] in ('PO', 'PK', 'KO')]
+            # needs two plain positional-or-keyword parameters, the converted ones without default order trouble
+            if len(named) != 2 or any(q[1] != 'PK' for q in named) or named[0][2] is not None:
+                continue
         p.context = rng.choice(contexts)
         ncalls = 2 if p.context == 'ifelse2' else rng.choice([1, 1, 1, 2])
         if p.route == 'parameter':
@@ -421,6 +449,13 @@ def gen_programs(rng, count, tainted=False, contexts=None, routes=None, valid_on
             where = rng.choice(['before', 'before', 'after'])
             if kind == 'delete' and where == 'before':
                 where = 'after'          # a deleted name cannot be forwarded at run time
+            if kind == 'inline':
+                c0 = p.calls[0]
+                if not (has_vk and c0.vk and (c0.n or c0.names) and not c0.partial
+                        and p.route not in ('chain_kw', 'chain_pos')):
+                    continue
+                c0.inline = True
+                star, where = 'kwargs', 'before'
             p.taint = (kind, star, where)
         try:
             p.render()
